@@ -318,8 +318,15 @@ pub fn decode_ways(bytes: &[u8]) -> (Option<Result<bp7::Bundle, bp7::error::Erro
     let mut diff = None;
     if class(&r) != class(&v) { diff = Some(format!("Bundle::try_from(&[u8]) and Bundle::try_from(Vec<u8>) disagree on the same bytes: {} vs {}", clip(&class(&r)), clip(&class(&v)))); }
     if let (None, Some(Ok(b))) = (&diff, &r) {
-        let rd = no_panic(|| serde_cbor::from_reader::<bp7::Bundle, _>(bytes).ok()).flatten();
-        if rd.as_ref() != Some(b) { diff = Some("Bundle::try_from(&[u8]) accepts the bytes, serde_cbor::from_reader yields something else".to_string()); }
+        // the reader-based entry point must agree on every input that IS the encoding of the bundle it decodes to
+        // (conformant input). On malformed input the two may differ: after the error that EndpointID's visitor
+        // swallows, a slice reader has consumed nothing of an over-long string and a stream reader everything up to
+        // the end of input — no property demands agreement there (found on the unchanged tree, DESIGN 11.4).
+        let conformant = no_panic(|| { let mut c = b.clone(); c.to_cbor() == bytes }).unwrap_or(false);
+        if conformant {
+            let rd = no_panic(|| serde_cbor::from_reader::<bp7::Bundle, _>(bytes).ok()).flatten();
+            if rd.as_ref() != Some(b) { diff = Some("Bundle::try_from(&[u8]) accepts the encoding of a bundle, serde_cbor::from_reader yields something else".to_string()); }
+        }
     }
     (r, diff)
 }
